@@ -24,4 +24,10 @@ func C09(run *vf.Run) {
 	}
 	eng.TraceFamily(run, "acts-trace", vf.Pick(run, 600, 6000), 200,
 		eng.GenOpts{MaxRules: 4, MaxEntries: 4, Actions: true, Chains: true, Flow: true, Engines: []string{"On", "On", "DetectionOnly"}}, 9)
+	if run.NumViolations() > 0 || len(run.InconclusiveList()) > 0 {
+		return
+	}
+	// code -> spec over arbitrary rule sets: recorded executions of the repository's test profiles, the Core Rule Set and
+	// generated rule sets must be behaviours of Flow.tla (Flow_Trace.tla)
+	FlowTraceStage(run, "crs", "generated")
 }
